@@ -4,7 +4,8 @@ import json, glob, os
 rows = []
 for d in sorted(glob.glob('/verif/seeded/*/meta.json')):
     m = json.load(open(d))
-    first = 'missed at first' if m.get('note', '').startswith('first missed') else 'caught as built'
+    note = m.get('note', '')
+    first = 'missed at first' if note.startswith('first missed') else 'own check missed at first (a neighbour caught it)' if note.startswith('first caught only') else 'caught as built'
     rows.append('| %s | %s | %s | %s | %s |' % (m['id'], m['title'].replace('|', '/'), m['needs_to_manifest'].replace('|', '/'), '; '.join(m['caught_by']).replace('|', '/'), first))
 print('| id | change | needs | caught by | first run |')
 print('|---|---|---|---|---|')
